@@ -325,6 +325,26 @@ func TestC06(t *testing.T) {
 		groups = append(groups, sweepGroups(v13, false, some)...)
 		params["sweep"] = "every W in 1..130 (12-psk), W in " + fmt.Sprint(some) + " (12-cid, 13-direct): n=W+3, 8-10 sequences visiting every distance 0..W+1 as replay and as late first arrival"
 	}
+	// the receiver exported and resumed before the records arrive: the configured window holds there too
+	resumed := func(gs []group) []group {
+		out := make([]group, 0, len(gs))
+		for _, g := range gs {
+			g.Sc.Resumed = true
+			g.ID = strings.Replace(g.ID, "/", "/resumed-", 1)
+			out = append(out, g)
+		}
+		return out
+	}
+	if env.Thorough() {
+		groups = append(groups, resumed(sweepGroups(psk, false, every))...)
+		groups = append(groups, resumed(sweepGroups(cid, true, some))...)
+		groups = append(groups, resumed(smallGroups(psk, false, false, ws, 5, 6))...)
+	} else {
+		groups = append(groups, resumed(sweepGroups(psk, false, some))...)
+		groups = append(groups, resumed(sweepGroups(cid, true, []int{2, 33, 64, 65, 100}))...)
+		groups = append(groups, resumed(smallGroups(psk, false, false, ws, 4, 4))...)
+	}
+	params["resumed"] = "the sweep and small families again on 12-psk (c2s) and 12-cid (s2c) with the receiver exported and resumed (same options) before the records arrive"
 	// boundaries of the sequence-number encoding: the sender's counter is preset just below a multiple of
 	// 2^16 (DTLS 1.3 carries 16 bits of the number; the receiver reconstructs the rest), 2^8, 2^32; then every
 	// arrival sequence of length 3 (quick) / 4 (thorough) over the 3 / 4 records that straddle the boundary
